@@ -178,6 +178,29 @@ func gen(g *core.G) {
 		}
 	}
 
+	// ---- (2a) chains built on purpose (lat/chains.go): through the built-in aliases, Struct ⊒ Struct, Iterable; each link with a witness
+	// of its right-hand type and a mutation of it.  Type[..] around a link turns its transitivity into a soundness question.
+	lg.Alias, lg.NoUnit = false, true
+	chains := append(append(lg.AliasChains(700*g.Scale), lg.StructChains(500*g.Scale)...), lg.IterChains(500*g.Scale)...)
+	for i, tr := range chains {
+		for _, ab := range [][2]lat.Ty{{tr.A, tr.B}, {tr.B, tr.C}, {tr.A, tr.C}} {
+			w, ok := lg.Witness(ab[1])
+			if !ok {
+				w = lg.Val(2)
+			}
+			g.Emit("sound " + ab[0].String() + " " + ab[1].String() + " " + w.String())
+			if i%3 == 0 {
+				g.Emit("sound " + ab[0].String() + " " + ab[1].String() + " " + lg.MutateVal(w).String())
+			}
+		}
+		// X ⊒ Y and the type value u with Y ⊒ u: Type[X] ⊒ Type[Y] ∋ u  (soundness for Type[..] IS transitivity)
+		g.Emit("sound " + lat.TypeOf(tr.A).String() + " " + lat.TypeOf(tr.B).String() + " " + lat.VT(tr.C).String())
+		if i%2 == 0 {
+			g.Emit("sound " + lat.Arr(lat.TypeOf(tr.A), 0, 3).String() + " " + lat.Tup([]lat.Ty{lat.TypeOf(tr.B)}).String() + " " +
+				lat.VA(lat.VT(tr.C)).String())
+		}
+	}
+
 	// ---- (2') the recursion guard of aliases: one alias object meeting the same right-hand part twice -----------
 	for _, gc := range lg.GuardCases(400 * g.Scale) {
 		g.Emit("sound " + gc.A.String() + " " + gc.B.String() + " " + gc.V.String())
